@@ -165,7 +165,11 @@ func reifyInto(opts *options, to reflect.Value, from *Config) Error {
 	to = chaseValuePointers(to)
 
 	if to, ok := tryTConfig(to); ok {
-		return mergeConfig(opts, to.Addr().Interface().(*Config), from)
+		cfg := to.Addr().Interface().(*Config)
+		if cfg.fields == nil { // zero value Config
+			cfg.fields = &fields{}
+		}
+		return mergeConfig(opts, cfg, from)
 	}
 
 	tTo := chaseTypePointers(to.Type())
